@@ -7,3 +7,4 @@
 -/
 import ForsysModel.Props.C15
 import ForsysModel.Props.C15cleanup
+import ForsysModel.Props.C15more
